@@ -135,3 +135,92 @@ def in_fork(fn):
     if status != 0 or not chunks:
         raise RuntimeError(f"forked twin failed with status {status}")
     return pickle.loads(b"".join(chunks))
+
+
+# ------------------------------------------------------------------------------------------------------------
+# Pristine twin server ("zygote")
+# ------------------------------------------------------------------------------------------------------------
+import importlib  # noqa: E402
+import struct  # noqa: E402
+
+
+def _send(fd, obj):
+    data = pickle.dumps(obj)
+    os.write(fd, struct.pack("<Q", len(data)))
+    view = memoryview(data)
+    while view:
+        n = os.write(fd, view[: 1 << 16])
+        view = view[n:]
+
+
+def _recv(fd):
+    hdr = b""
+    while len(hdr) < 8:
+        b = os.read(fd, 8 - len(hdr))
+        if not b:
+            return None
+        hdr += b
+    (n,) = struct.unpack("<Q", hdr)
+    chunks, got = [], 0
+    while got < n:
+        b = os.read(fd, min(1 << 16, n - got))
+        if not b:
+            return None
+        chunks.append(b)
+        got += len(b)
+    return pickle.loads(b"".join(chunks))
+
+
+class Zygote:
+    """A child forked from a process in which NO simulated run has executed yet (modules imported, nothing else).
+    It answers requests `(module:function, payload)`; every request runs in a grandchild forked from the zygote,
+    so the zygote's own process state stays as it was: whatever process-global state the runs of the parent
+    accumulate (settings, caches, class attributes) cannot reach the answers."""
+
+    def __init__(self):
+        req_r, req_w = os.pipe()
+        resp_r, resp_w = os.pipe()
+        pid = os.fork()
+        if pid == 0:
+            try:
+                os.close(req_w)
+                os.close(resp_r)
+                while True:
+                    msg = _recv(req_r)
+                    if msg is None:
+                        break
+                    target, payload = msg
+                    mod, fn = target.split(":")
+
+                    def call():
+                        return getattr(importlib.import_module(mod), fn)(payload)
+
+                    try:
+                        res = in_fork(call)
+                    except BaseException as e:  # noqa
+                        res = ("exc", "ZygoteFailure", str(e)[:300])
+                    _send(resp_w, res)
+            finally:
+                os._exit(0)
+        os.close(req_r)
+        os.close(resp_w)
+        self.pid, self.req_w, self.resp_r = pid, req_w, resp_r
+        self.owner = os.getpid()
+
+    def call(self, target, payload):
+        _send(self.req_w, (target, payload))
+        res = _recv(self.resp_r)
+        if res is None:
+            raise RuntimeError("pristine twin server died")
+        return res
+
+
+_ZYGOTE = None
+
+
+def get_zygote():
+    """The zygote of this process (created on first use; workers create theirs before their first run)."""
+    global _ZYGOTE
+    if _ZYGOTE is None or _ZYGOTE.owner != os.getpid():
+        _ZYGOTE = Zygote()
+    return _ZYGOTE
